@@ -101,7 +101,9 @@ def run_tlc(spec, cfg, *, workdir, workers=16, env=None, simulate=None, depth=No
     meta = workdir / 'meta'
     if meta.exists():
         shutil.rmtree(meta)
-    cmd = ['java', '-XX:+UseParallelGC', f'-Xmx{heap}']
+    jtmp = workdir / 'jtmp'          # TLC unpacks its standard modules into java.io.tmpdir on every start
+    jtmp.mkdir(exist_ok=True)
+    cmd = ['java', '-XX:+UseParallelGC', f'-Xmx{heap}', f'-Djava.io.tmpdir={jtmp}']
     if deque:
         cmd.append('-Dtlc2.tool.queue.IStateQueue=StateDeque')
     cmd += ['-cp', f'{TLA_JAR}:{TLA_DEPS}', 'tlc2.TLC', '-workers', str(workers),
